@@ -99,6 +99,11 @@ func (c *ChordStorage) startLeaseRenewal(key string, token uint64) error {
 }
 
 func (c *ChordStorage) renewLeaseOnce(ctx context.Context, key string, l *leaseHolder) error {
+	// the background renewal and an explicit RenewLockLease may run at the same time: the one that read the
+	// token before the other replaced it would be refused, and a refused background renewal ends the loop
+	l.renewMu.Lock()
+	defer l.renewMu.Unlock()
+
 	prev := atomic.LoadUint64(&l.token)
 	next, err := c.KV.Renew(ctx, []byte(kvKeyName(key)), c.leaseTTL, prev)
 	if err != nil {
@@ -239,6 +244,7 @@ type leaseHolder struct {
 	ctx      context.Context
 	cancelFn context.CancelFunc
 	token    uint64
+	renewMu  sync.Mutex // renewals of one lease are made one at a time
 }
 
 var _ certmagic.Storage = (*ChordStorage)(nil)
